@@ -599,6 +599,8 @@ theorem calc_bin (op : BinOp) (l r : Expr) (sg : Bool) (k : Kind) (ihl : IH l) (
       rw [hv] at hright
       simp only [binRight] at hright
       obtain ⟨hrc, hsm⟩ := asSmallConst_some hv
+      split at hright
+      · rw [fail_ok] at hright; exact hright.elim
       rw [emit_ok] at hright
       cases hright
       refine ⟨[⟨op.opcode + longBit b, d0, 0, 0, v⟩], rfl, ?_, rfl, rfl, ?_⟩
